@@ -176,6 +176,10 @@ func keepNilPropCallListChainMiddleware(next _PropCallMiddlewareHandler) _PropCa
 			}
 
 			elem := next(env, nextRecv, propName, nil, chainArg, args, kwargs)
+			if elem.Type() == object.ErrType {
+				// raise error
+				return elem
+			}
 			elems = append(elems, elem)
 		}
 
